@@ -105,6 +105,18 @@ fn tokens_of(d: vibrato::Dictionary, sentences: &[String], ignore_space: bool, m
     (toks, vibrato::Dictionary::read(&buf[..]).unwrap())
 }
 
+/// a writer with room for `room` bytes; afterwards every write fails
+struct Limited { room: usize }
+impl std::io::Write for Limited {
+    fn write(&mut self, buf: &[u8]) -> std::io::Result<usize> {
+        if self.room == 0 && !buf.is_empty() { return Err(std::io::Error::new(std::io::ErrorKind::Other, "no room left")); }
+        let k = buf.len().min(self.room);
+        self.room -= k;
+        Ok(k)
+    }
+    fn flush(&mut self) -> std::io::Result<()> { Ok(()) }
+}
+
 pub fn run(prop: &str, seed: u64, n: usize, outdir: &str, _corpus: Option<&str>) -> std::io::Result<()> {
     let (ctype, report) = if prop == "C09" { ("c09case", "c09_report") } else { ("c05case", "c05_report") };
     let mut sh = Shards::new(
@@ -134,6 +146,13 @@ pub fn run(prop: &str, seed: u64, n: usize, outdir: &str, _corpus: Option<&str>)
         *dist.entry(format!("connector_{}", kind)).or_default() += 1;
         *dist.entry(format!("user_{}", gd.user.is_some())).or_default() += 1;
         *dist.entry(format!("mapped_{}", !pre.is_empty())).or_default() += 1;
+        // 1 case in 2: an earlier export of the same dictionary on this thread failed part-way (a writer that runs
+        // out of room); the export that follows must be unaffected by it
+        if rng.chance(1, 2) {
+            let room = *rng.pick(&[0usize, 1, 20, 21, 22, 4096, 100_000, 1 << 20]);
+            let failed = d.write(Limited { room }).is_err();
+            *dist.entry(format!("earlier_failed_write_{}", failed)).or_default() += 1;
+        }
         let mut img = vec![];
         let count = d.write(&mut img).unwrap();
         // the model decodes the first few images of a run (an image is ~263 kB)
